@@ -224,7 +224,7 @@ Definition mol_consistent (E : aenv) (m : molecule) : Prop :=
 Lemma molecule_of_inv : forall E name M0 vol q m, molecule_of E name M0 vol q = FOk m ->
   let M := mkF (f_struct M0) (f_kind M0) (Some (volume_density E M0 vol)) (f_name M0) in
   exists H D, f_replace1 E M aH1 aH = FOk H /\ f_replace1 E M aH1 aD = FOk D /\
-              m = mkMol name vol q M H D (f_mass E H) (f_mass E D).
+              m = mkMol name vol q M H D (f_mass E H) (f_mass E D) (f_density H).
 Proof.
   intros E name M0 vol q m H. unfold molecule_of in H.
   destruct (dict_mem (f_atoms M0) aT); [discriminate|].
@@ -247,6 +247,7 @@ Qed.
 (* density is mass over cell volume: 1e24 * (mass / N_A) / V, for the labile and for the natural form *)
 Theorem molecule_density : forall E name M0 vol q m, molecule_of E name M0 vol q = FOk m ->
   exists dl dn, f_density (m_labile m) = Some dl /\ f_density (m_natural m) = Some dn /\
+    m_density m = Some dn /\
     (0 < vol -> dl == TEN24 * (f_mass E (m_labile m) / NA) / vol /\
                 dn == TEN24 * (m_mass m / NA) / vol) /\
     (vol <= 0 -> dl == 0 /\ dn == 0).
@@ -258,6 +259,7 @@ Proof.
   destruct (replace_density _ _ _ _ _ _ aH1_aH HdM EH) as [dn [Hdn Heq]].
   pose proof (replace_mass _ _ _ _ _ aH1_aH EH) as Hmass.
   subst m. simpl. exists (volume_density E M0 vol), dn. split; [reflexivity|]. split; [exact Hdn|].
+  split; [exact Hdn|].
   assert (HMM : f_mass E M = f_mass E M0) by reflexivity.
   (* the replace succeeded: either no labile hydrogen (masses agree) or a non-zero mass *)
   assert (Hcases : ~ f_mass E M0 == 0 \/ dn = volume_density E M0 vol /\ f_mass E Hf == f_mass E M0).
@@ -911,6 +913,7 @@ Qed.
 Theorem sequence_density : forall E tab name s sm, sequence_of E tab name s = FOk sm ->
   let m := s_mol sm in
   exists dl dn, f_density (m_labile m) = Some dl /\ f_density (m_natural m) = Some dn /\
+    m_density m = Some dn /\
     (0 < m_vol m -> dl == TEN24 * (f_mass E (m_labile m) / NA) / m_vol m /\
                     dn == TEN24 * (m_mass m / NA) / m_vol m) /\
     (m_vol m <= 0 -> dl == 0 /\ dn == 0).
